@@ -134,7 +134,10 @@ type c12Flow struct {
 
 func c12FlowRun(f c12Family) {
 	c12Config()
-	vGoInline("(*github.com/lightningnetwork/lnd/contractcourt.ChannelArbitrator).resolveContract")
+	// the resolvers are parked (flagged resolved) by the fake log: their goroutine is outside the unit.
+	// Since the repair 7335e1d it would remove an already resolved contract from the log and signal the
+	// main loop (a blocking send); symbolically it is a no-op, natively it runs and parks on that send.
+	vNoop("(*github.com/lightningnetwork/lnd/contractcourt.ChannelArbitrator).resolveContract")
 	vReplace("(*github.com/btcsuite/btcd/wire/v2.MsgTx).TxHash", "github.com/lightningnetwork/lnd/contractcourt.vC12TxHash")
 
 	w := c12NewWorld(f)
